@@ -25,12 +25,29 @@ def terms : Nat → P (List Term) := many term
 
 def ord0 : Order := Order.default
 
+/-- term reader under an environment for projection cells (`v900+i` ↦ the projected value) -/
+def termE (env : List (Nat × Term)) : P Term := fun ts =>
+  match term ts with
+  | some (t, ts) => some (apply (fun y => match env.find? (fun p => p.1 == y) with | some p => p.2 | none => .var y) t, ts)
+  | none => none
+
+/-- skip one goal's tokens: returns the tokens it consists of and the rest (used by `project`, whose body is
+    re-read with the projected values each time the goal is solved) -/
+def natsF : Nat → P (List Nat)
+  | 0, ts => some ([], ts)
+  | k + 1, ts => match nat ts with
+    | some (a, ts) => match natsF k ts with
+      | some (as, ts) => some (a :: as, ts)
+      | none => none
+    | none => none
+
 mutual
-/-- `dfs`: are we inside a `dfs { }` (goals are `DFSGoal`s) -/
-def goalF : Nat → Bool → P G
-  | 0, _, _ => none
-  | _, _, [] => none
-  | n + 1, dfs, t :: ts =>
+/-- `dfs`: are we inside a `dfs { }` (goals are `DFSGoal`s); `env`: projection cells in scope -/
+def goalF : Nat → Bool → List (Nat × Term) → P G
+  | 0, _, _, _ => none
+  | _, _, _, [] => none
+  | n + 1, dfs, env, t :: ts =>
+    let term := termE env
     let t3 (mk : Term → Term → Term → G) : Option (G × Toks) :=
       match term ts with
       | some (a, ts) => match term ts with
@@ -55,57 +72,57 @@ def goalF : Nat → Bool → P G
     else if t == "fail" then some (.fail, ts)
     else if t == "conj" then
       match nat ts with
-      | some (k, ts) => match goalsF n dfs k ts with
+      | some (k, ts) => match goalsF n dfs env k ts with
         | some (gs, ts) => some (if dfs then Goal.conjDOfList gs else Goal.conjOfList gs, ts)
         | none => none
       | none => none
     else if t == "disj" then
       match nat ts with
-      | some (k, ts) => match goalsF n dfs k ts with
+      | some (k, ts) => match goalsF n dfs env k ts with
         | some (gs, ts) => some (if dfs then Goal.disjDOfList gs else Goal.disjOfList gs, ts)
         | none => none
       | none => none
     else if t == "conde" then
       match nat ts with
-      | some (k, ts) => match clausesF n dfs k ts with
+      | some (k, ts) => match clausesF n dfs env k ts with
         | some (cs, ts) => some (if dfs then Goal.condeDOfClauses cs else Goal.condeOfClauses cs, ts)
         | none => none
       | none => none
     else if t == "fresh" then
-      match goalF n dfs ts with
+      match goalF n dfs env ts with
       | some (g, ts) => some (.fresh g, ts)
       | none => none
     else if t == "conda" && !dfs then
       match nat ts with
-      | some (k, ts) => match clausesF n false k ts with
+      | some (k, ts) => match clausesF n false env k ts with
         | some (cs, ts) => some (Goal.condaOfClauses cs, ts)
         | none => none
       | none => none
     else if t == "condu" && !dfs then
       match nat ts with
-      | some (k, ts) => match clausesF n false k ts with
+      | some (k, ts) => match clausesF n false env k ts with
         | some (cs, ts) => some (Goal.conduOfClauses cs, ts)
         | none => none
       | none => none
     else if t == "onceo" && !dfs then
       match nat ts with
-      | some (k, ts) => match goalsF n false k ts with
+      | some (k, ts) => match goalsF n false env k ts with
         | some (gs, ts) => some (Goal.onceo gs, ts)
         | none => none
       | none => none
     else if t == "dfs" then
       match nat ts with
-      | some (k, ts) => match goalsF n true k ts with
+      | some (k, ts) => match goalsF n true env k ts with
         | some (gs, ts) => some (Goal.conjDOfList [Goal.conjDOfList gs], ts)
         | none => none
       | none => none
     else if t == "anyo" && !dfs then
-      match goalF n false ts with
+      match goalF n false env ts with
       | some (g, ts) => some (.anyo (Goal.conjOfList [Goal.conjOfList [g]]), ts)
       | none => none
     else if t == "loop" && !dfs then
       match nat ts with
-      | some (k, ts) => match clausesF n false k ts with
+      | some (k, ts) => match clausesF n false env k ts with
         | some (cs, ts) => some (.anyo (Goal.conjOfList (cs.map Goal.conjOfList)), ts)
         | none => none
       | none => none
@@ -115,7 +132,7 @@ def goalF : Nat → Bool → P G
       match ts with
       | r :: ts => match relOf r with
         | some rel => match nat ts with
-          | some (k, ts) => match terms k ts with
+          | some (k, ts) => match many term k ts with
             | some (as, ts) => some (.call ⟨rel, as, dfs⟩, ts)
             | none => none
           | none => none
@@ -140,8 +157,30 @@ def goalF : Nat → Bool → P G
     else if t == "distinctfd" then t1 (distinctfdG ord0)
     else if t == "closure" then
       match nat ts with
-      | some (k, ts) => match goalsF n dfs k ts with
+      | some (k, ts) => match goalsF n dfs env k ts with
         | some (gs, ts) => some (.dyn id (fun _ => if dfs then Goal.conjDOfList gs else Goal.conjOfList gs), ts)
+        | none => none
+      | none => none
+    else if t == "isnum" then t1 (fun a => .atom (liftRes fun st => if a.isNum then .ok st else .fail))
+    else if t == "isground" then t1 (fun a => .atom (liftRes fun st => if a.ground then .ok st else .fail))
+    else if t == "project" then
+      -- project K idx.. N body: the body is read again, with the cells standing for the walked values of the
+      -- projected variables, whenever the goal is solved (`Project::solve` walks*, then solves the body at once)
+      match nat ts with
+      | some (k, ts) => match natsF k ts with
+        | some (idxs, ts) => match nat ts with
+          | some (m, ts) =>
+            -- first pass with the cells unassigned: finds where the body ends
+            match goalsF n dfs env m ts with
+            | some (_, rest) =>
+              let bodyToks := ts.take (ts.length - rest.length)
+              some (.dyn id (fun st =>
+                let env' := (idxs.zipIdx.map fun p => (900 + p.2, apply st.σ (.var p.1))) ++ env
+                match goalsF n dfs env' m bodyToks with
+                | some (gs, _) => if dfs then Goal.conjDOfList gs else Goal.conjOfList gs
+                | none => .fail), rest)
+            | none => none
+          | none => none
         | none => none
       | none => none
     else if t == "probe" then some (.atom (liftRes fun st => .ok st), ts)
@@ -149,23 +188,23 @@ def goalF : Nat → Bool → P G
     else if t == "timesz" then t3 (timeszG ord0)
     else none
 
-def goalsF : Nat → Bool → Nat → P (List G)
-  | 0, _, _, _ => none
-  | _, _, 0, ts => some ([], ts)
-  | n + 1, dfs, k + 1, ts =>
-    match goalF n dfs ts with
-    | some (g, ts) => match goalsF n dfs k ts with
+def goalsF : Nat → Bool → List (Nat × Term) → Nat → P (List G)
+  | 0, _, _, _, _ => none
+  | _, _, _, 0, ts => some ([], ts)
+  | n + 1, dfs, env, k + 1, ts =>
+    match goalF n dfs env ts with
+    | some (g, ts) => match goalsF n dfs env k ts with
       | some (gs, ts) => some (g :: gs, ts)
       | none => none
     | none => none
 
-def clausesF : Nat → Bool → Nat → P (List (List G))
-  | 0, _, _, _ => none
-  | _, _, 0, ts => some ([], ts)
-  | n + 1, dfs, k + 1, ts =>
+def clausesF : Nat → Bool → List (Nat × Term) → Nat → P (List (List G))
+  | 0, _, _, _, _ => none
+  | _, _, _, 0, ts => some ([], ts)
+  | n + 1, dfs, env, k + 1, ts =>
     match nat ts with
-    | some (m, ts) => match goalsF n dfs m ts with
-      | some (c, ts) => match clausesF n dfs k ts with
+    | some (m, ts) => match goalsF n dfs env m ts with
+      | some (c, ts) => match clausesF n dfs env k ts with
         | some (cs, ts) => some (c :: cs, ts)
         | none => none
       | none => none
@@ -260,7 +299,7 @@ def runProg (ts : Toks) : String :=
             let rec bodyF : Nat → Toks → Option (List G)
               | 0, _ => none
               | _, [] => some []
-              | n + 1, ts => match goalF (ts.length + 2) false ts with
+              | n + 1, ts => match goalF (ts.length + 2) false [] ts with
                 | some (g, ts) => (bodyF n ts).map (g :: ·)
                 | none => none
             match bodyF (ts.length + 1) ts with
